@@ -178,6 +178,7 @@ func serverScenarios() []*spxScenario {
 
 func c19Client(o harness.ClientOpts) *harness.Client {
 	h := harness.NewClient(o)
+	h.ReuseAfter = true
 	h.Go(harness.ReqSpec{Tag: "warm", Path: "/warm", Headers: [][2]string{{"X-Common", "the-same-value-every-time"}}})
 	if len(h.Conns) == 1 {
 		sc := h.Conns[0]
